@@ -15,30 +15,33 @@ FAMS3 = ["hexahedron", "hexahedron20", "hexahedron27", "tetra", "tetra10", "tetr
 FAMS2 = ["quad", "quad8", "quad9", "triangle", "triangle6", "triangleMINI"]
 
 
-def ref_material(rng, name, condensed=False):
-    """(felupe umat or (umat, bulk) for the condensed body, oracle energy W(l1,l2,l3), parameter dict)"""
+def ref_material(rng, name, condensed=False, scale=1.0):
+    """(felupe umat or (umat, bulk) for the condensed body, oracle energy W(l1,l2,l3), parameter dict); ``scale`` is the unit of
+    the moduli (every parameter of the dimension of a stress is multiplied after the draw; 1.0 leaves the draw as it is)"""
     import felupe as fem
     if name == "neo_hooke":
-        p = dict(mu=float(rng.uniform(0.5, 2)), bulk=float(rng.uniform(2, 10)))
+        p = dict(mu=scale * float(rng.uniform(0.5, 2)), bulk=scale * float(rng.uniform(2, 10)))
         return fem.NeoHooke(mu=p["mu"], bulk=p["bulk"]), OH.energy("neo_hooke", p), p
     if name == "neo_hooke_compressible":
-        p = dict(mu=float(rng.uniform(0.5, 2)), lmbda=float(rng.uniform(1, 5)))
+        p = dict(mu=scale * float(rng.uniform(0.5, 2)), lmbda=scale * float(rng.uniform(1, 5)))
         return fem.NeoHookeCompressible(mu=p["mu"], lmbda=p["lmbda"]), OH.energy("neo_hooke_compressible", p), p
     if name == "ogden_roxburgh":
-        # pseudo-elastic softening around a Neo-Hookean base: on the primary loading path (monotone ramp from the virgin state)
-        # the response is that of the base material
-        p = dict(mu=float(rng.uniform(0.5, 2)), bulk=float(rng.uniform(2, 10)))
-        um = fem.OgdenRoxburgh(fem.NeoHooke(mu=p["mu"], bulk=p["bulk"]), r=float(rng.uniform(1.5, 4)), m=float(rng.uniform(0.5, 2)), beta=float(rng.uniform(0, 0.3)))
+        # pseudo-elastic softening around a Neo-Hookean base: eta = 1 - erf((Wmax - W) / (m + beta Wmax)) / r scales the stress of
+        # the base law (documented); on the primary loading path (W = Wmax) the response is that of the base material.  r, beta
+        # are numbers, m is an energy density
+        p = dict(mu=scale * float(rng.uniform(0.5, 2)), bulk=scale * float(rng.uniform(2, 10)))
+        p.update(r=float(rng.uniform(1.5, 4)), m=scale * float(rng.uniform(0.5, 2)), beta=float(rng.uniform(0, 0.3)))
+        um = fem.OgdenRoxburgh(fem.NeoHooke(mu=p["mu"], bulk=p["bulk"]), r=p["r"], m=p["m"], beta=p["beta"])
         return um, OH.energy("neo_hooke", p), p
-    bulk = float(rng.uniform(5, 50))
+    bulk = scale * float(rng.uniform(5, 50))
     if name == "mooney_rivlin":
-        p = dict(C10=float(rng.uniform(0.2, 1)), C01=float(rng.uniform(0.05, 0.4)), bulk=bulk)
+        p = dict(C10=scale * float(rng.uniform(0.2, 1)), C01=scale * float(rng.uniform(0.05, 0.4)), bulk=bulk)
         iso = fem.Hyperelastic(fem.mooney_rivlin, C10=p["C10"], C01=p["C01"])
     elif name == "yeoh":
-        p = dict(C10=float(rng.uniform(0.3, 1)), C20=float(rng.uniform(-0.02, 0.08)), C30=float(rng.uniform(0, 0.03)), bulk=bulk)
+        p = dict(C10=scale * float(rng.uniform(0.3, 1)), C20=scale * float(rng.uniform(-0.02, 0.08)), C30=scale * float(rng.uniform(0, 0.03)), bulk=bulk)
         iso = fem.Hyperelastic(fem.yeoh, C10=p["C10"], C20=p["C20"], C30=p["C30"])
     elif name == "ogden":
-        p = dict(mu=[float(rng.uniform(0.5, 1.5)), float(rng.uniform(0.05, 0.3))], alpha=[float(rng.uniform(1.5, 3)), float(rng.uniform(-2, -1))], bulk=bulk)
+        p = dict(mu=[scale * float(rng.uniform(0.5, 1.5)), scale * float(rng.uniform(0.05, 0.3))], alpha=[float(rng.uniform(1.5, 3)), float(rng.uniform(-2, -1))], bulk=bulk)
         iso = fem.Hyperelastic(fem.ogden, mu=p["mu"], alpha=p["alpha"])
     else:
         raise KeyError(name)
@@ -46,6 +49,60 @@ def ref_material(rng, name, condensed=False):
     if condensed:
         return (iso, bulk), W, p
     return iso & fem.Volumetric(bulk=bulk), W, p
+
+
+def or_eta(W, p, states, Wmax=0.0):
+    """Softening factors of the pseudo-elastic law along a list of principal-stretch states (own history loop: the running
+    maximum of the base energy, started at ``Wmax``; documented eta = 1 - erf((Wmax - W) / (m + beta Wmax)) / r)."""
+    from scipy.special import erf
+    out = []
+    for l in states:
+        w = float(np.real(W([float(x) for x in l])))
+        Wmax = max(Wmax, w)
+        out.append(1.0 - float(erf((Wmax - w) / (p["m"] + p["beta"] * Wmax))) / p["r"])
+    return np.array(out)
+
+
+def segments(points, num):
+    """piecewise linear list through ``points`` with ``num`` intervals per segment (every turning point is a member)"""
+    out = [np.array([float(points[0])])]
+    for a, b in zip(points[:-1], points[1:]):
+        out.append(a + (b - a) * np.arange(1, num + 1) / num)
+    return np.concatenate(out)
+
+
+# length unit and force level by index (third audit: the check had no magnitude sweep - forces were always O(1), so an absolute
+# threshold on the recording / post-processing side would not show): (length scale s, level of modulus * s^(d-1)).  The smallest level
+# keeps the total reaction at 1e-4 .. 1e-3 (nodal forces 1e-5 .. 1e-4), where Newton's documented criterion |f1| / (1e-3 + |f0|) < 1e-10
+# still bounds the force error by 1e-9 relative, 100 x below the force tolerance
+UNITS = [(1.0, 1.0), (1e-3, 3e-4), (250.0, 1e5), (3e-6, 1.0)]
+
+
+def units_for(k, d):
+    """(length scale, modulus scale) of schedule entry k for a body of dimension d"""
+    s, level = UNITS[k % len(UNITS)]
+    return s, level / s ** (d - 1)
+
+
+def scaled_box(fam, rng, s, **kw):
+    """problems.box_mesh in another length unit (scaled after the draw: the random stream does not depend on the unit)"""
+    mesh, L = problems.box_mesh(fam, rng, **kw)
+    if s != 1.0:
+        mesh, L = mesh.copy(points=mesh.points * s), L * s
+    return mesh, L
+
+
+def own_face(X, axis, value):
+    """point numbers (ascending) of the plane X[axis] = value in the caller's own bookkeeping, tolerance relative to the body"""
+    return np.flatnonzero(np.abs(X[:, axis] - value) <= 1e-9 * float(np.ptp(X[:, axis])))
+
+
+def first_pk(W, F3):
+    """First Piola-Kirchhoff stress of an isotropic energy W(l1, l2, l3) at a general 3x3 deformation gradient: oracle-side polar
+    decomposition, P = F N diag(dW/dl_i / l_i) N^T with C = N diag(l_i^2) N^T"""
+    w, N = np.linalg.eigh(F3.T @ F3)
+    lam = np.sqrt(w)
+    return F3 @ N @ np.diag(OH.principal_P(W, lam) / lam) @ N.T
 
 
 REF = ["neo_hooke", "neo_hooke_compressible", "mooney_rivlin", "yeoh", "ogden", "ogden_roxburgh"]
@@ -120,22 +177,56 @@ def case_patch(fam, rep):
     return fn
 
 
+def lagrange_min_jacobian(X0, X, order, dim):
+    """Smallest Jacobian determinant of the geometry map of one arbitrary-order Lagrange cell with points X, relative to the
+    undistorted cell X0 (an equidistant grid in a box), sampled on 3 * order + 1 positions per axis.  Own tensor-product Lagrange
+    basis; the points are identified by their undistorted grid position, so the point order of the cell type plays no role."""
+    lo, hi = X0.min(0), X0.max(0)
+    idx = np.rint((X0 - lo) / (hi - lo) * order).astype(int)
+    nodes = np.arange(order + 1) / order
+    xi = np.linspace(0, 1, 3 * order + 1)
+    V, D = [], []
+    for i in range(order + 1):
+        c = np.poly(np.delete(nodes, i)) / np.prod(nodes[i] - np.delete(nodes, i))
+        V.append(np.polyval(c, xi))
+        D.append(np.polyval(np.polyder(c), xi))
+    V, D = np.array(V), np.array(D)
+    letters = "pqr"[:dim]
+    Jm = np.zeros((dim, dim) + (len(xi),) * dim)
+    for b in range(dim):
+        ops = [(D if a == b else V)[idx[:, a]] for a in range(dim)]
+        T = np.einsum(",".join("n" + l for l in letters) + "->n" + letters, *ops)
+        Jm[:, b] = np.einsum("ni,n...->i...", X, T)
+    det = np.linalg.det(np.moveaxis(Jm, (0, 1), (-2, -1)))
+    return float(det.min() / np.prod(hi - lo))
+
+
 def case_patch_lagrange(order, dim, rep):
     """Displacement patch test on an arbitrary-order Lagrange cell with displaced interior nodes (curved interior)."""
     def fn(run):
         import felupe as fem
         rng = rng_for(run.seed, "C09", "patch-lagrange", order, dim, rep)
         mesh = gen.lagrange_mesh(order, dim)
+        X0 = mesh.points.copy()
         X = mesh.points.copy()
         lo, hi = X.min(0), X.max(0)
         onb = np.any(np.isclose(X, lo) | np.isclose(X, hi), axis=1)
         h = float(np.min(hi - lo)) / order
-        X[~onb] += 0.15 * h * rng.uniform(-1, 1, X[~onb].shape)
-        mesh = mesh.copy(points=X)
-        reg = fem.RegionLagrange(mesh, order=order, dim=dim)
-        if not np.all(reg.dV > 0):
+        # validity of the cell is decided by the own Jacobian of the geometry map (third audit: the precondition was read from the
+        # region under test, reg.dV > 0, which is positive at the quadrature points of one order-4 draw in four whose Jacobian is
+        # negative in between); the displacement is drawn again until the own map is valid everywhere, and a cell that the own
+        # map finds valid is judged whatever the region reports
+        amp = 0.15 if order <= 4 else 1.5 / order ** 2  # (equidistant high-order cells fold at much smaller displacements)
+        for attempt in range(50):
+            X = X0.copy()
+            X[~onb] += amp * h * rng.uniform(-1, 1, X[~onb].shape)
+            if lagrange_min_jacobian(X0, X, order, dim) >= 0.05:
+                break
+        else:
             run.skip("homogeneous.patch", "displaced interior nodes make the cell invalid")
             return
+        mesh = mesh.copy(points=X)
+        reg = fem.RegionLagrange(mesh, order=order, dim=dim)
         field = fem.FieldContainer([fem.Field(reg, dim=dim) if dim == 3 else fem.FieldPlaneStrain(reg, dim=2)])
         name = ["neo_hooke", "neo_hooke_compressible"][rep % 2]
         umat, W, p = ref_material(rng, name)
@@ -177,7 +268,9 @@ def case_curve(loadcase, fam, name, rep):
             else:
                 body = fem.SolidBody(umat, field)
             nsub = [1, 3, 7][rep % 3]
-            cyclic = rep % 4 == 3 and name != "ogden_roxburgh"  # (the softening law equals its base on the primary path only)
+            # (the softening law equals its base on the primary path only: its reference carries the softening factor of the own
+            # history loop or_eta along the recorded states, so the unloading branch is judged too)
+            cyclic = rep % 4 == 3
             symflag = bool(rep % 2)
             if loadcase == "uniaxial":
                 axis = int(rng.integers(0, d))
@@ -221,7 +314,18 @@ def case_curve(loadcase, fam, name, rep):
             try:
                 job.evaluate(verbose=False, tol=1e-10)
             except ValueError as exc:
-                # Newton did not converge for this load level in the chosen subdivision: it raised (C07), nothing to compare
+                # Newton did not converge for this load level in the chosen subdivision: it raised (C07), nothing to compare.
+                # Only for a coarse subdivision, though: from the undeformed state in stretch increments of at most 15 % (own ramp)
+                # a homogeneous problem in the stable range has to be solved (a class of jobs that stops converging would
+                # otherwise vanish into the skips; no job of the unchanged tree fails to converge)
+                if loadcase == "uniaxial":
+                    inc = maxabs(np.diff(np.concatenate([[0.0], np.atleast_1d(move)]))) / L[axis]
+                else:
+                    inc = maxabs(top / L[list(axes)]) / nsub
+                if inc <= 0.15 and "not converged" in str(exc):
+                    run.fail("homogeneous.curve", "loadcase=%s clause=job-converges" % loadcase,
+                             "%s/%s/%s: the job did not converge although no substep stretches by more than %.0f %% (%s)" % (loadcase, fam, name, 100 * inc, str(exc).strip()[:40]))
+                    return
                 run.skip("homogeneous.curve", "job did not converge (%s/%s/%s, %d substeps): %s" % (loadcase, fam, name, nsub, str(exc).strip()[:40]))
                 return
             x = np.array(job.x)
@@ -233,22 +337,38 @@ def case_curve(loadcase, fam, name, rep):
                 return
             worst_x = worst_y = 0.0
             Pscale = 0.0
+            P11s, states = [], []  # per substep: stress of the (base) law, principal stretches along the coordinate axes
             for k in range(nsteps):
+                st = np.ones(3)
                 if loadcase == "uniaxial":
                     mv = float(np.atleast_1d(move)[k])
                     lam = 1 + mv / L[axis]
                     P11, l2, l3 = OH.uniaxial(W, lam, planestrain=planestrain)
                     worst_x = max(worst_x, abs(x[k][axis] - mv))
+                    st[axis] = lam
+                    st[[a for a in range(3) if a != axis]] = l2
+                    if planestrain:
+                        st[2] = 1.0
                 else:
                     l1, l2 = 1 + t[k] * top[0] / L[axes[0]], 1 + t[k] * top[1] / L[axes[1]]
                     if planestrain:
                         P = OH.principal_P(W, [l1, l2, 1.0])
-                        P11 = P[0]
+                        P11, l3 = P[0], 1.0
                     else:
                         P11, P22, l3 = OH.biaxial(W, l1, l2)
                     worst_x = max(worst_x, abs(x[k][axis] - t[k] * top[0]))
-                Pscale = max(Pscale, abs(P11))
-                worst_y = max(worst_y, abs(y[k][axis] - P11 * A0))
+                    st[axes[0]], st[axes[1]] = l1, l2
+                    st[[a for a in range(3) if a not in axes][0]] = l3
+                P11s.append(P11)
+                states.append(st)
+            # the pseudo-elastic law scales the stress of its base by the softening factor of the history so far (1 on the primary
+            # path; the lateral stretches are those of the base law because the factor scales the whole stress)
+            eta = or_eta(W, p, states) if name == "ogden_roxburgh" else np.ones(nsteps)
+            if name == "ogden_roxburgh" and eta.min() < 1 - 1e-3:
+                run.units["curve:softened-branch"] += 1
+            for k in range(nsteps):
+                Pscale = max(Pscale, abs(eta[k] * P11s[k]))
+                worst_y = max(worst_y, abs(y[k][axis] - eta[k] * P11s[k] * A0))
             sc = max(Pscale * A0, 1e-300)
             run.compare("homogeneous.curve", "loadcase=%s family=%s clause=recorded-displacement" % (loadcase, fam), worst_x / max(maxabs(x), 1e-300), 1e-12,
                         "%s: job.x is not the ramp value" % label, unit="curve:%s:x" % loadcase, config=(loadcase, fam, name, "x"))
@@ -256,6 +376,21 @@ def case_curve(loadcase, fam, name, rep):
                         "%s: recorded reaction force differs from the analytic P * A0" % label, unit="curve:%s:%s" % (loadcase, "planestrain" if planestrain else "3d"),
                         config=(loadcase, fam, name, condensed, nsub),
                         sample={"loadcase": loadcase, "family": fam, "material": name, "params": p, "substeps": nsteps, "max|F - P*A0|": worst_y, "P*A0 scale": sc})
+            # all components of the record (third audit: every point of a moved face carries the same normal displacement, and one
+            # compared component cannot tell the first boundary point from any other): job.x is the displacement of the first
+            # point of the tracked boundary (lowest point number on the moved face, own bookkeeping) in the homogeneous state -
+            # the lateral symmetry planes pass through the origin in every variant -, job.y = P N A0 has no lateral component
+            Xp = mesh.points
+            first = own_face(Xp, axis, Xp[:, axis].max())[0]
+            lat = [a for a in range(d) if a != axis]
+            xlat = np.array([[(states[k][a] - 1) * Xp[first, a] for a in lat] for k in range(nsteps)])
+            run.compare("homogeneous.curve", "loadcase=%s family=%s clause=recorded-displacement-vector" % (loadcase, fam),
+                        maxabs(x[:, lat] - xlat) / max(maxabs(x), 1e-300), 1e-7 + 10 * REG.get(name, 0.0),
+                        "%s: the lateral components of job.x are not the displacement of the first point of the tracked face" % label,
+                        unit="curve:%s:x-vector" % loadcase, config=(loadcase, fam, name, "x-vector"))
+            run.compare("homogeneous.curve", "loadcase=%s family=%s clause=reaction-force-vector" % (loadcase, fam), maxabs(y[:, lat]) / sc, 1e-7 + REG.get(name, 0.0),
+                        "%s: the recorded reaction force has a component in the plane of the moved face" % label,
+                        unit="curve:%s:y-vector" % loadcase, config=(loadcase, fam, name, "y-vector"))
             run.units["curve:material:" + name] += 1
             run.units["curve:family:" + fam] += 1
             # final displacement field: the homogeneous stretch state
@@ -469,6 +604,511 @@ def case_curve_multi(rep):
     return fn
 
 
+class Recorder:
+    """User callback of a CharacteristicCurve job: notes the (step, substep) numbers and the keyword arguments it is handed, how
+    many points the job had recorded at that moment, and sums the force vector of the substep on faces of the caller's own
+    bookkeeping (plain numpy: displacement block of the global vector, rows of the own point list)."""
+
+    def __init__(self, faces, dim):
+        self.faces, self.dim = faces, dim
+        self.calls, self.kwargs, self.forces, self.recorded, self.job = [], [], [], [], None
+
+    def __call__(self, stepnumber, substepnumber, substep, **kwargs):
+        from scipy.sparse import issparse
+        self.calls.append((int(stepnumber), int(substepnumber)))
+        self.kwargs.append(dict(kwargs))
+        fun = substep.fun
+        fun = np.asarray(fun.toarray() if issparse(fun) else fun, float).ravel()
+        n = substep.x[0].values.size  # the displacement block comes first
+        f = fun[:n].reshape(-1, self.dim)
+        self.forces.append({key: f[pts].sum(axis=0) for key, pts in self.faces.items()})
+        if self.job is not None:
+            self.recorded.append((len(self.job.x), len(self.job.y)))
+
+
+def homogeneous_states(W, d, moves, L):
+    """Principal stretches along the coordinate axes and principal stresses of the base law for a list of prescribed end-face
+    displacements {axis: value}; axes that are not prescribed are stress free (3D) resp. held (third axis of plane strain)."""
+    from scipy.optimize import brentq
+    out = []
+    for mv in moves:
+        lam = np.ones(3)
+        for a, v in mv.items():
+            lam[a] = 1 + v / L[a]
+        unknown = [a for a in range(d) if a not in mv]
+        if len(unknown) == 1 or (len(unknown) == 2 and d == 3):
+            # one free in-plane axis, or two free axes with the same stretch (uniaxial tension in 3D)
+            def f(l):
+                z = lam.copy()
+                z[unknown] = l
+                return OH.principal_P(W, z)[unknown[0]]
+            lam[unknown] = brentq(f, 0.1, 4.0, xtol=1e-14, rtol=1e-14)
+        out.append((lam, OH.principal_P(W, lam)))
+    return out
+
+
+def case_curve_steps(rep):
+    """Two steps with *different* boundary dictionaries (third audit: all multi-step jobs handed one dictionary to both steps, a
+    dof partition cached from the first step went unnoticed): a uniaxial step, then the biaxial load case that holds the first
+    axis and stretches the second.  The job gets a user callback (numbering, keyword arguments, own force sums on both moved
+    faces: the reaction on the second face, P22 A0, is nowhere else compared) and runs in another unit system per index."""
+    def fn(run):
+        import felupe as fem
+        rng = rng_for(run.seed, "C09", "curve-steps", rep)
+        fam = CURVE_FAMS[(5 * rep + 2) % len(CURVE_FAMS)]
+        name = REF[rep % len(REF)]
+        d = gen.FAMILIES[fam]["dim"]
+        s, ms = units_for(rep, d)
+        mon = SolverMonitor(run).attach()
+        try:
+            mesh, L = scaled_box(fam, rng, s, curved_interior=bool(rep % 2))
+            planestrain = d == 2
+            field = problems.field_for(fam, mesh, "planestrain" if planestrain else "3d")
+            umat, W, p = ref_material(rng, name, scale=ms)
+            body = fem.SolidBody(umat, field)
+            a0, a1 = [(0, 1), (1, 0), (1, 2), (2, 0)][rep % 4] if d == 3 else [(0, 1), (1, 0)][rep % 2]
+            b1, _ = fem.dof.uniaxial(field, clamped=False, axis=a0, sym=True)
+            m1 = np.array([0.1, 0.2]) * L[a0]
+            b2, _ = fem.dof.biaxial(field, axes=(a0, a1), sym=True, moves=(float(m1[-1]), 0.0))
+            m2 = (np.array([-0.04, -0.09]) if rep % 3 == 2 else np.array([0.06, 0.15])) * L[a1]
+            X = mesh.points
+            faces = {"a0": own_face(X, a0, L[a0]), "a1": own_face(X, a1, L[a1])}
+            rec = Recorder(faces, d)
+            use_items = bool(rep % 2)
+            job = fem.CharacteristicCurve([fem.Step([body], ramp={b1["move"]: m1}, boundaries=b1),
+                                           fem.Step([body], ramp={b2["move-right-%d" % a1]: m2}, boundaries=b2)],
+                                          b2["move-right-%d" % a0], items=[body] if use_items else None, callback=rec, tag="C09", number=rep)
+            rec.job = job
+            label = "two-dictionaries/%s/%s length %g modulus %.1e" % (fam, name, s, ms)
+            try:
+                job.evaluate(verbose=False, tol=1e-10)
+            except ValueError as exc:
+                if "not converged" in str(exc):
+                    run.fail("homogeneous.curve", "shape=two-dictionaries clause=job-converges", "%s: the job did not converge (%s)" % (label, str(exc).strip()[:40]))
+                    return
+                raise
+            moves = [{a0: v} for v in m1] + [{a0: m1[-1], a1: v} for v in m2]
+            x, y = np.array(job.x), np.array(job.y)
+            if len(x) != 4 or len(y) != 4:
+                run.fail("homogeneous.curve", "shape=two-dictionaries clause=curve-length", "%s: %d / %d points recorded for 4 substeps" % (label, len(x), len(y)))
+                return
+            hs = homogeneous_states(W, d, moves, L)
+            eta = or_eta(W, p, [h[0] for h in hs]) if name == "ogden_roxburgh" else np.ones(4)
+            A = lambda a: float(np.prod([L[b] for b in range(d) if b != a]))
+            yref = np.zeros((4, d))
+            y1ref = np.zeros((4, d))
+            for k, (lam, P) in enumerate(hs):
+                yref[k, a0] = eta[k] * P[a0] * A(a0)
+                y1ref[k, a1] = eta[k] * P[a1] * A(a1)  # (zero in the uniaxial step: the face is free)
+            sc = maxabs(yref)
+            first = faces["a0"][0]
+            xref = np.array([(lam[:d] - 1) * X[first] for lam, P in hs])
+            tolf = 1e-7 + REG.get(name, 0.0)
+            run.compare("homogeneous.curve", "shape=two-dictionaries clause=recorded-displacement", maxabs(x[:, a0] - xref[:, a0]) / maxabs(xref), 1e-12,
+                        "%s: job.x is not the prescribed value of the moved / held face" % label, unit="curve:steps:x", config=("steps", fam, name, "x"))
+            run.compare("homogeneous.curve", "shape=two-dictionaries clause=recorded-displacement-vector", maxabs(x - xref) / maxabs(xref), 1e-7 + 10 * REG.get(name, 0.0),
+                        "%s: job.x is not the displacement of the first point of the tracked face in the homogeneous state" % label, unit="curve:steps:x-vector")
+            run.compare("homogeneous.curve", "shape=two-dictionaries clause=reaction-force", maxabs(y - yref) / sc, tolf,
+                        "%s: recorded reaction force vector differs from the analytic P N A0 (second step: the boundary dictionary changes)" % label,
+                        unit="curve:steps:two-dictionaries", config=("steps", fam, name, use_items, s),
+                        sample={"shape": "two boundary dictionaries", "family": fam, "material": name, "length unit": s, "modulus unit": ms, "max|F - P*A0|": maxabs(y - yref), "P*A0 scale": sc})
+            if not use_items and len(rec.forces) == 4:
+                # own sums of the residual the callback was handed: the tracked face once more (tools.force / boundary.points), and
+                # the second moved face
+                f0 = np.array([fo["a0"] for fo in rec.forces])
+                f1 = np.array([fo["a1"] for fo in rec.forces])
+                run.compare("homogeneous.curve", "shape=two-dictionaries clause=record-is-force-sum-of-callback-state", maxabs(f0 - y) / sc, 1e-12,
+                            "%s: job.y is not the sum of the substep's force vector over the points of the tracked face" % label, unit="curve:steps:callback-force")
+                run.compare("homogeneous.curve", "shape=two-dictionaries clause=reaction-force-second-face", maxabs(f1 - y1ref) / sc, tolf,
+                            "%s: the reaction on the second moved face differs from the analytic P22 A0" % label, unit="curve:steps:second-face", config=("steps", fam, name, "P22"))
+            want = [(0, 0), (0, 1), (1, 0), (1, 1)]
+            good = rec.calls == want and all(kw == {"tag": "C09", "number": rep} for kw in rec.kwargs) and rec.recorded == [(k + 1, k + 1) for k in range(4)]
+            if good:
+                run.ok("homogeneous.curve", unit="curve:steps:user-callback")
+            else:
+                run.fail("homogeneous.curve", "shape=two-dictionaries clause=user-callback",
+                         "%s: the user callback of the job saw (step, substep) %r with keyword arguments %r after %r recorded points; expected %r, the keywords handed to the job, one more point per call" % (label, rec.calls, rec.kwargs[:1], rec.recorded, want))
+            # final state: uniform C = diag(lambda_i^2)
+            Fq = job.res.x.extract()[0][:d, :d]
+            Cq = np.einsum("kiqc,kjqc->ijqc", Fq, Fq)
+            run.compare("homogeneous.curve", "shape=two-dictionaries clause=uniform-stretch-state", maxabs(Cq - np.diag(hs[-1][0][:d] ** 2).reshape(d, d, 1, 1)), 1e-6 + 10 * REG.get(name, 0.0),
+                        "%s: the right Cauchy-Green tensor at the quadrature points is not diag(lambda_i^2)" % label, unit="curve:steps:uniform-C")
+            check_trace(run, mon.trace, label)
+        finally:
+            attach.detach_all()
+    return fn
+
+
+# families of case_curve_items per variant (all twelve in the thorough tier; the quick tier takes the first two of every row)
+ITEMS_FAMS = [["hexahedron20", "triangle6", "tetra10", "quad9", "hexahedron", "quad", "tetraMINI", "triangleMINI", "hexahedron27", "quad8", "tetra", "triangle"],
+              ["tetra10", "quad8", "hexahedron", "triangleMINI", "hexahedron27", "triangle6", "tetra", "quad9", "hexahedron20", "quad", "tetraMINI", "triangle"],
+              ["hexahedron", "quad8", "tetra10", "triangle6", "quad9", "hexahedron20", "tetraMINI", "quad", "triangleMINI", "tetra", "triangle", "hexahedron27"]]
+
+
+def case_curve_items(rep):
+    """Curve jobs whose record depends on *which* items / points are taken (third audit): (0) the composite law split into two
+    bodies on one field, both handed to the job as items=[a, b]; (1) a tracked boundary whose points move differently (the free
+    lateral face: job.x is the displacement of its first point in every component, the reaction is zero); (2) several unloading /
+    reloading cycles of the pseudo-elastic law (the softened branch per substep, own history loop)."""
+    def fn(run):
+        import felupe as fem
+        rng = rng_for(run.seed, "C09", "curve-items", rep)
+        variant = rep % 3
+        q = rep // 3
+        fam = ITEMS_FAMS[variant][q % len(CURVE_FAMS)]
+        d = gen.FAMILIES[fam]["dim"]
+        planestrain = d == 2
+        s, ms = units_for(q + variant, d)
+        mon = SolverMonitor(run).attach()
+        try:
+            mesh, L = scaled_box(fam, rng, s, curved_interior=bool(q % 2))
+            field = problems.field_for(fam, mesh, "planestrain" if planestrain else "3d")
+            X = mesh.points
+            axis = int(rng.integers(0, d))
+            A0 = float(np.prod([L[b] for b in range(d) if b != axis]))
+            b, _ = fem.dof.uniaxial(field, clamped=False, axis=axis, sym=True)
+            if variant == 0:
+                name = ["mooney_rivlin", "yeoh", "ogden"][q % 3]
+                (iso, bulk), W, p = ref_material(rng, name, condensed=True, scale=ms)
+                items = [fem.SolidBody(iso, field), fem.SolidBody(fem.Volumetric(bulk=bulk), field)]
+                if (q // 3) % 2:
+                    items = items[::-1]
+                mv = np.array([0.1, 0.25]) * L[axis] if q % 2 == 0 else np.array([-0.05, -0.12]) * L[axis]
+                tracked, what = b["move"], "items=[isochoric, volumetric]"
+                job = fem.CharacteristicCurve([fem.Step(items, ramp={b["move"]: mv}, boundaries=b)], tracked, items=list(items))
+            elif variant == 1:
+                name = REF[q % 5]
+                umat, W, p = ref_material(rng, name, scale=ms)
+                body = fem.SolidBody(umat, field)
+                other = (axis + 1 + (q // 2) % (d - 1)) % d
+                tracked = fem.Boundary(field[0], **{"f" + "xyz"[other]: L[other]})  # tracked only: it is in no boundary dictionary
+                mv = np.array([0.1, 0.3]) * L[axis]
+                what = "tracked=free-lateral-face"
+                job = fem.CharacteristicCurve([fem.Step([body], ramp={b["move"]: mv}, boundaries=b)], tracked, items=[body] if q % 2 else None)
+            else:
+                name = "ogden_roxburgh"
+                umat, W, p = ref_material(rng, name, scale=ms)
+                body = fem.SolidBody(umat, field)
+                tp = [1 + float(rng.uniform(0.2, 0.3)), 1 + float(rng.uniform(0.03, 0.08)), 1 + float(rng.uniform(0.35, 0.45)), 1 + float(rng.uniform(0.08, 0.15))]
+                mv = (segments([1.0] + tp, 2)[1:] - 1) * L[axis]
+                tracked, what = b["move"], "pseudo-elastic-cycles"
+                job = fem.CharacteristicCurve([fem.Step([body], ramp={b["move"]: mv}, boundaries=b)], tracked, items=[body] if q % 2 else None)
+            label = "%s/%s/%s length %g modulus %.1e" % (what, fam, name, s, ms)
+            try:
+                job.evaluate(verbose=False, tol=1e-10)
+            except ValueError as exc:
+                if "not converged" in str(exc):
+                    run.fail("homogeneous.curve", "shape=%s clause=job-converges" % what, "%s: the job did not converge (%s)" % (label, str(exc).strip()[:40]))
+                    return
+                raise
+            x, y = np.array(job.x), np.array(job.y)
+            if len(x) != len(mv) or len(y) != len(mv):
+                run.fail("homogeneous.curve", "shape=%s clause=curve-length" % what, "%s: %d points recorded for %d substeps" % (label, len(x), len(mv)))
+                return
+            hs = homogeneous_states(W, d, [{axis: v} for v in mv], L)
+            eta = or_eta(W, p, [h[0] for h in hs]) if name == "ogden_roxburgh" else np.ones(len(mv))
+            Pa = np.array([e * h[1][axis] for e, h in zip(eta, hs)])
+            sc = maxabs(Pa) * A0
+            tolf = 1e-7 + REG.get(name, 0.0)
+            if variant == 1:
+                first = own_face(X, other, L[other])[0]
+                yref = np.zeros((len(mv), d))
+            else:
+                first = own_face(X, axis, L[axis])[0]
+                yref = np.zeros((len(mv), d))
+                yref[:, axis] = Pa * A0
+            xref = np.array([(h[0][:d] - 1) * X[first] for h in hs])
+            run.compare("homogeneous.curve", "shape=%s clause=recorded-displacement-vector" % what, maxabs(x - xref) / maxabs(xref), 1e-7 + 10 * REG.get(name, 0.0),
+                        "%s: job.x is not the displacement of the first point of the tracked boundary in the homogeneous state" % label,
+                        unit="curve:items:x-vector", config=("items", variant, fam, name, "x"))
+            unit = ["curve:items:two-items", "curve:items:lateral-face", "curve:items:pseudo-elastic-cycles"][variant]
+            run.compare("homogeneous.curve", "shape=%s clause=reaction-force" % what, maxabs(y - yref) / sc, tolf,
+                        "%s: recorded reaction force vector differs from the analytic one (P N A0 on a moved face, zero on a free face)" % label,
+                        unit=unit, config=("items", variant, fam, name, s),
+                        sample={"shape": what, "family": fam, "material": name, "params": p, "length unit": s, "max|F - ref|": maxabs(y - yref), "P*A0 scale": sc})
+            if variant == 2:
+                if eta.min() < 1 - 1e-3:
+                    run.units["curve:softened-branch"] += 1
+                else:
+                    run.skip("homogeneous.curve", "no softened substep in the cyclic ramp")
+            check_trace(run, mon.trace, label)
+        finally:
+            attach.detach_all()
+    return fn
+
+
+# formulation x family holes of the third audit: the condensed body on MINI families, the mixed (u, p, J) body on plane-strain, simplex
+# and MINI families with their dual regions, meshes of one cell per axis (n = 2) in all three formulations
+FORMS = [("tetraMINI", "condensed", 3), ("quad9", "mixed", 3), ("hexahedron27", "solid", 2), ("triangleMINI", "condensed", 3), ("triangle6", "mixed", 3),
+         ("quad8", "mixed", 2), ("tetra10", "mixed", 3), ("hexahedron", "condensed", 2), ("triangleMINI", "mixed", 3), ("hexahedron27", "mixed", 3),
+         ("tetraMINI", "mixed", 3), ("quad", "mixed", 3), ("quad8", "mixed", 3), ("hexahedron20", "mixed", 2), ("quad9", "condensed", 2), ("tetra10", "solid", 2),
+         ("hexahedron20", "condensed", 2), ("triangle6", "condensed", 2), ("quad", "solid", 2), ("hexahedron", "mixed", 2)]
+
+
+def case_curve_forms(rep):
+    def fn(run):
+        import felupe as fem
+        rng = rng_for(run.seed, "C09", "curve-forms", rep)
+        fam, kind, n = FORMS[rep % len(FORMS)]
+        d = gen.FAMILIES[fam]["dim"]
+        planestrain = d == 2
+        mon = SolverMonitor(run).attach()
+        try:
+            mesh, L = problems.box_mesh(fam, rng, n=(2,) * d if n == 2 else None, curved_interior=bool(rep % 2))
+            # ratio of bulk to shear modulus: up to the regime the condensed and mixed bodies exist for
+            ratio = [8.0, 2e3, 1e4, 50.0][(rep + rep // len(FORMS)) % 4] if kind != "solid" else [8.0, 50.0][rep % 2]
+            mu = float(rng.uniform(0.5, 2))
+            if rep % 2 == 0 or kind == "mixed":
+                name = "neo_hooke"
+                p = dict(mu=mu, bulk=ratio * mu)
+                iso, full = fem.NeoHooke(mu=mu), fem.NeoHooke(mu=mu, bulk=p["bulk"])
+            else:
+                name = "mooney_rivlin"
+                c01 = float(rng.uniform(0.1, 0.3)) * mu / 2
+                p = dict(C10=mu / 2 - c01, C01=c01, bulk=ratio * mu)
+                iso = fem.Hyperelastic(fem.mooney_rivlin, C10=p["C10"], C01=p["C01"])
+                full = iso & fem.Volumetric(bulk=p["bulk"])
+            W = OH.energy(name, p)
+            if kind == "mixed":
+                field = fem.FieldsMixed(gen.make_region(fam, mesh), n=3, planestrain=planestrain)
+                body = fem.SolidBody(fem.ThreeFieldVariation(full), field)
+            else:
+                field = problems.field_for(fam, mesh, "planestrain" if planestrain else "3d")
+                body = fem.SolidBodyNearlyIncompressible(iso, field, bulk=p["bulk"]) if kind == "condensed" else fem.SolidBody(full, field)
+            biax = (rep // 2) % 2 == 1
+            a0 = int(rng.integers(0, d))
+            a1 = (a0 + 1 + int(rng.integers(0, d - 1))) % d
+            t = np.array([0.4, 1.0]) if rep % 3 else np.array([0.2, 0.5, 1.0])
+            top0 = float(rng.uniform(0.15, 0.3)) * L[a0]
+            if biax:
+                top1 = float(rng.uniform(-0.08, 0.2)) * L[a1]
+                b, _ = fem.dof.biaxial(field, axes=(a0, a1), sym=True, moves=(0.0, 0.0))
+                ramp = {b["move-right-%d" % a0]: t * top0, b["move-right-%d" % a1]: t * top1}
+                tracked = b["move-right-%d" % a0]
+                moves = [{a0: tt * top0, a1: tt * top1} for tt in t]
+            else:
+                b, _ = fem.dof.uniaxial(field, clamped=False, axis=a0, sym=True)
+                ramp = {b["move"]: t * top0}
+                tracked = b["move"]
+                moves = [{a0: tt * top0} for tt in t]
+            use_items = rep % 3 == 1
+            job = fem.CharacteristicCurve([fem.Step([body], ramp=ramp, boundaries=b)], tracked, items=[body] if use_items else None)
+            label = "%s/%s/%s/%s cells=%d K/mu=%g" % ("biaxial" if biax else "uniaxial", fam, kind, name, mesh.ncells, ratio)
+            try:
+                job.evaluate(verbose=False, tol=1e-10)
+            except ValueError as exc:
+                if "not converged" in str(exc):
+                    run.fail("homogeneous.curve", "formulation=%s clause=job-converges" % kind, "%s: the job did not converge (%s)" % (label, str(exc).strip()[:40]))
+                    return
+                raise
+            x, y = np.array(job.x), np.array(job.y)
+            if len(x) != len(t) or len(y) != len(t):
+                run.fail("homogeneous.curve", "formulation=%s clause=curve-length" % kind, "%s: %d points recorded for %d substeps" % (label, len(x), len(t)))
+                return
+            hs = homogeneous_states(W, d, moves, L)
+            A0 = float(np.prod([L[c] for c in range(d) if c != a0]))
+            yref = np.zeros((len(t), d))
+            yref[:, a0] = [h[1][a0] * A0 for h in hs]
+            sc = maxabs(yref)
+            X = mesh.points
+            first = own_face(X, a0, L[a0])[0]
+            xref = np.array([(h[0][:d] - 1) * X[first] for h in hs])
+            run.compare("homogeneous.curve", "formulation=%s family=%s clause=recorded-displacement-vector" % (kind, fam), maxabs(x - xref) / maxabs(xref), 1e-7,
+                        "%s: job.x is not the displacement of the first point of the moved face in the homogeneous state" % label,
+                        unit="curve:forms:x-vector", config=("forms", fam, kind, "x"))
+            run.compare("homogeneous.curve", "formulation=%s family=%s clause=reaction-force" % (kind, fam), maxabs(y - yref) / sc, 1e-7,
+                        "%s: recorded reaction force vector differs from the analytic P N A0" % label,
+                        unit="curve:forms:%s%s" % (kind, ":one-cell" if n == 2 else (":mini" if gen.FAMILIES[fam].get("mini") else "")), config=("forms", fam, kind, name, n, ratio, biax),
+                        sample={"family": fam, "formulation": kind, "material": name, "params": p, "cells": int(mesh.ncells), "max|F - P*A0|": maxabs(y - yref), "P*A0 scale": sc})
+            if kind == "mixed":
+                run.units["curve:forms:mixed:%s" % ("planestrain" if planestrain else "3d")] += 1
+            if ratio >= 1e3:
+                run.units["curve:forms:nearly-incompressible"] += 1
+            u = job.res.x[0].values
+            geo = np.ones(len(X), bool)
+            if gen.FAMILIES[fam].get("mini"):
+                geo[mesh.cells[:, -1]] = False
+            uex = X * (hs[-1][0][:d] - 1)
+            run.compare("homogeneous.curve", "formulation=%s family=%s clause=homogeneous-displacement" % (kind, fam), maxabs(u[geo] - uex[geo]) / maxabs(uex), 1e-7,
+                        "%s: final displacement field is not the homogeneous stretch state" % label, unit="curve:forms:field")
+            if kind == "mixed":
+                # the dual unknowns of the homogeneous state: J = det F and p = dU/dJ = K (J - 1) at every point of the dual fields
+                # that belongs to a cell (the dual meshes of the higher-order families keep unused points: prescribed, not solved);
+                # the pressure is measured against the stress level, J against 1
+                J = float(np.prod(hs[-1][0]))
+                used = [np.unique(job.res.x[i].region.mesh.cells) for i in (1, 2)]
+                errp = maxabs(job.res.x[1].values[used[0]] - p["bulk"] * (J - 1)) / max(maxabs(hs[-1][1]), p["bulk"] * abs(J - 1))
+                errJ = maxabs(job.res.x[2].values[used[1]] - J)
+                run.compare("homogeneous.curve", "formulation=mixed family=%s clause=dual-fields" % fam, max(errp, errJ), 1e-7,
+                            "%s: the pressure / volume-ratio unknowns are not K (J - 1) / J = det F of the homogeneous state" % label, unit="curve:forms:dual-fields")
+            check_trace(run, mon.trace, label)
+        finally:
+            attach.detach_all()
+    return fn
+
+
+PATCH_JOBS = [("hexahedron27", "solid"), ("tetra10", "condensed"), ("quad8", "mixed"), ("triangleMINI", "solid"), ("hexahedron", "mixed"), ("quad9", "condensed"),
+              ("tetraMINI", "solid"), ("triangle6", "solid"), ("hexahedron20", "condensed"), ("quad", "solid"), ("tetra", "condensed"), ("triangle", "solid")]
+
+
+def case_patch_job(rep):
+    """The displacement patch test as a job (third audit: the affine map was only ever solved by one direct Newton call with a
+    SolidBody): ramped through Step with array-valued boundary values per substep, with the condensed and the mixed body, and with
+    the reaction of a *sheared* state: the force vector on a face is P(F_t) N A0 with off-axis components (all curve states are
+    diagonal), P from the oracle's polar decomposition."""
+    def fn(run):
+        import felupe as fem
+        rng = rng_for(run.seed, "C09", "patch-job", rep)
+        fam, kind = PATCH_JOBS[rep % len(PATCH_JOBS)]
+        d = gen.FAMILIES[fam]["dim"]
+        planestrain = d == 2
+        # (the mixed body stays in the unit system of the draw: Newton's documented criterion is one norm over rows of different
+        # units - forces for u, volumes for p, energies for J -, and the displacement rows of a patch test vanish after the first
+        # linear step, so in other unit systems the call returns before p and J are iterated; reported, not judged here)
+        s, ms = units_for(rep // 2, d) if kind != "mixed" else (1.0, 1.0)
+        mon = SolverMonitor(run).attach()
+        try:
+            mesh, L = scaled_box(fam, rng, s, curved_interior=bool(rep % 2))
+            if kind == "solid":
+                name = ["neo_hooke", "neo_hooke_compressible", "yeoh", "ogden"][(rep // 3) % 4]
+                umat, W, p = ref_material(rng, name, scale=ms)
+            elif kind == "condensed":
+                name = ["mooney_rivlin", "yeoh"][(rep // 3) % 2]
+                (iso, bulk), W, p = ref_material(rng, name, condensed=True, scale=ms)
+            else:
+                name = "neo_hooke"
+                umat, W, p = ref_material(rng, name, scale=ms)
+            if kind == "mixed":
+                field = fem.FieldsMixed(gen.make_region(fam, mesh), n=3, planestrain=planestrain)
+                body = fem.SolidBody(fem.ThreeFieldVariation(umat), field)
+            else:
+                field = problems.field_for(fam, mesh, "planestrain" if planestrain else "3d")
+                body = fem.SolidBodyNearlyIncompressible(iso, field, bulk=bulk) if kind == "condensed" else fem.SolidBody(umat, field)
+            while True:
+                A = np.eye(d) + 0.25 * rng.uniform(-1, 1, (d, d)) / np.sqrt(d)
+                if np.linalg.det(A) > 0.5:
+                    break
+            X = mesh.points
+            geo = np.ones(len(X), bool)
+            if gen.FAMILIES[fam].get("mini"):
+                geo[mesh.cells[:, -1]] = False
+            onb = np.zeros(len(X), bool)
+            for a in range(d):
+                onb[own_face(X, a, 0.0)] = True
+                onb[own_face(X, a, L[a])] = True
+            onb &= geo
+            uex = X @ (A - np.eye(d)).T
+            ball = fem.Boundary(field[0], mask=onb.reshape(-1, 1), value=0 * uex[onb])
+            t = np.array([0.3, 0.7, 1.0]) if rep % 2 == 0 else np.array([0.5, 1.0])
+            a = rep % d  # the tracked face X_a = L_a
+            face = fem.Boundary(field[0], **{"f" + "xyz"[a]: L[a]})
+            job = fem.CharacteristicCurve([fem.Step([body], ramp={ball: t[:, None, None] * uex[onb][None]}, boundaries={"all": ball})], face)
+            label = "patch-job/%s/%s/%s length %g modulus %.1e" % (fam, kind, name, s, ms)
+            try:
+                job.evaluate(verbose=False, tol=1e-10)
+            except ValueError as exc:
+                if "not converged" in str(exc):
+                    run.fail("homogeneous.patch", "family=%s clause=patch-job-converges" % fam, "%s: the ramped patch test did not converge (%s)" % (label, str(exc).strip()[:40]))
+                    return
+                raise
+            x, y = np.array(job.x), np.array(job.y)
+            if len(x) != len(t) or len(y) != len(t):
+                run.fail("homogeneous.patch", "family=%s clause=curve-length" % fam, "%s: %d points recorded for %d substeps" % (label, len(x), len(t)))
+                return
+            A0 = float(np.prod([L[c] for c in range(d) if c != a]))
+            yref = []
+            for tt in t:
+                F3 = np.eye(3)
+                F3[:d, :d] += tt * (A - np.eye(d))
+                yref.append(first_pk(W, F3)[:d, a] * A0)
+            yref = np.array(yref)
+            first = own_face(X, a, L[a])[0]
+            xref = t[:, None] * uex[first][None]
+            u = job.res.x[0].values
+            run.compare("homogeneous.patch", "family=%s formulation=%s clause=ramped-affine-displacement" % (fam, kind), maxabs(u[geo] - uex[geo]) / maxabs(uex), 1e-8,
+                        "%s: nodal displacements after the ramp are not the prescribed affine map" % label, unit="patch-job:" + kind, config=("patch-job", fam, kind, name, "u"))
+            if gen.FAMILIES[fam].get("mini"):
+                run.compare("homogeneous.patch", "family=%s formulation=%s clause=bubble-amplitude-zero" % (fam, kind), maxabs(u[~geo]) / maxabs(uex), 1e-8,
+                            "%s: bubble unknowns are not zero for a homogeneous solution" % label, unit="patch-job:bubble")
+            run.compare("homogeneous.patch", "family=%s formulation=%s clause=recorded-displacement" % (fam, kind), maxabs(x - xref) / maxabs(xref), 1e-12,
+                        "%s: job.x is not the prescribed displacement of the first point of the tracked face at every substep" % label, unit="patch-job:x")
+            run.compare("homogeneous.patch", "family=%s formulation=%s clause=reaction-force-vector" % (fam, kind), maxabs(y - yref) / maxabs(yref), 1e-7 + REG.get(name, 0.0),
+                        "%s: the reaction vector on a face of the sheared homogeneous state is not P(F) N A0" % label, unit="patch-job:reaction-vector",
+                        config=("patch-job", fam, kind, name, s),
+                        sample={"family": fam, "formulation": kind, "material": name, "A": A.tolist(), "length unit": s, "max|F - P N A0|": maxabs(y - yref), "scale": maxabs(yref)})
+            Fq = job.res.x.extract()[0][:d, :d]
+            run.compare("homogeneous.patch", "family=%s formulation=%s clause=uniform-deformation-gradient" % (fam, kind), maxabs(Fq - A.reshape(d, d, 1, 1)), 1e-8,
+                        "%s: deformation gradient is not uniform = A" % label, unit="patch-job:F")
+            check_trace(run, mon.trace, label)
+        finally:
+            attach.detach_all()
+    return fn
+
+
+def case_view_history(rep):
+    """Views of a law with state variables where the history matters (third audit: monotone lists from the virgin state cannot tell
+    whether the state is handed from increment to increment, the argument statevars= and the state branches of the incompressible
+    view were never driven): non-monotone stretch lists, a start state statevars=, the incompressible view, a second evaluate() of
+    the same view; reference = own history loop or_eta times the stress of the base law."""
+    def fn(run):
+        import felupe as fem
+        rng = rng_for(run.seed, "C09", "view-history", rep)
+        scale = [1.0, 1e-6, 1e6][rep % 3]
+        umat, W, p = ref_material(rng, "ogden_roxburgh", scale=scale)
+        tp = [float(rng.uniform(1.3, 1.5)), float(rng.uniform(1.05, 1.2)), float(rng.uniform(1.6, 1.8))]
+        lists = {"ux": segments([1.0, tp[0], tp[1], tp[2], 0.8], 2), "ps": segments([1.0, tp[0], tp[1], tp[2], 1.1], 2),
+                 "bx": segments([1.0, 1 + 0.6 * (tp[0] - 1), 1 + 0.6 * (tp[1] - 1), 1 + 0.6 * (tp[2] - 1), 1.02], 2)}
+        state = {"Uniaxial": lambda l: [l, OH.uniaxial(W, l)[1], OH.uniaxial(W, l)[2]], "Planar Shear": lambda l: [l, 1.0, _l3_planar(W, l)],
+                 "Biaxial": lambda l: [l, l, OH.biaxial(W, l, l)[2]]}
+        key = {"Uniaxial": "ux", "Planar Shear": "ps", "Biaxial": "bx"}
+        # a start state that matters: the energy of a uniaxial stretch between the two loading peaks (the first loading and
+        # unloading branch is softened as a whole, the second peak is primary loading again)
+        w0 = float(np.real(W(state["Uniaxial"](0.5 * (tp[0] + tp[2])))))
+        for incompressible in (False, True):
+            given = (rep % 2 == 1) != incompressible
+            start = w0 if given else 0.0
+            kw = dict(statevars=np.full((1, 1, 1), start)) if given else {}
+            if incompressible:
+                pi = {**p, "bulk": 0.0}
+                Wv = OH.energy("neo_hooke", pi)
+                um = fem.OgdenRoxburgh(fem.NeoHooke(mu=p["mu"]), r=p["r"], m=p["m"], beta=p["beta"])
+                st = {"Uniaxial": lambda l: [l, l ** -0.5, l ** -0.5], "Planar Shear": lambda l: [l, 1.0, 1 / l], "Biaxial": lambda l: [l, l, l ** -2]}
+                force = lambda z: OH.incompressible(Wv, *z)
+                tol = 1e-9
+            else:
+                Wv, um, st, tol = W, umat, state, 1e-6  # (lateral stretch from the view's hybr root solve: 1e-8)
+                force = lambda z: OH.principal_P(Wv, z)[0]
+            view = um.view(incompressible=incompressible, **lists, **kw)
+            ref = {}
+            for lab, fs in st.items():
+                states = [fs(float(l)) for l in lists[key[lab]]]
+                eta = or_eta(Wv, p, states, Wmax=start)
+                f0 = np.array([force(z) for z in states])
+                # (how much the start state changes the curve: the unit of the statevars= argument counts only where it matters)
+                matters = maxabs((eta - or_eta(Wv, p, states)) * f0) / maxabs(f0) > 1e-3 if given else False
+                ref[lab + (" (Incompressible)" if incompressible else "")] = (eta * f0, eta, matters)
+            for second in (False, True):
+                data = view.evaluate()
+                if len(data) != 3:
+                    run.fail("homogeneous.view", "view=history clause=three-load-cases", "%d load cases returned for three stretch lists" % len(data))
+                    return
+                for lam, f, lab in data:
+                    r, eta, matters = ref[lab]
+                    what = "%s%s%s" % (lab, " statevars=" if given else "", " second evaluate()" if second else "")
+                    run.compare("homogeneous.view", "view=%s material=OgdenRoxburgh(neo_hooke) start=%s evaluate=%s clause=history-curve" % (lab, "statevars" if given else "virgin", "second" if second else "first"),
+                                maxabs(np.asarray(f) - r) / maxabs(r), tol,
+                                "ViewMaterial %s: curve of the pseudo-elastic law on a non-monotone stretch list differs from eta(history) * stress of the base law" % what,
+                                unit="view:history:" + lab if eta.min() < 1 - 1e-3 else None, config=(lab, "history", given, second, scale),
+                                sample={"view": what, "params": p, "stretch": list(map(float, lam)), "force": list(map(float, np.asarray(f))), "eta": list(map(float, eta))})
+                    if eta.min() > 1 - 1e-3:
+                        run.note("view-history list without a softened increment")
+                    if given and matters:
+                        run.units["view:history:statevars="] += 1
+                    if second:
+                        run.units["view:history:second-evaluate"] += 1
+    return fn
+
+
 def case_view(name, rep):
     def fn(run):
         import felupe as fem
@@ -523,7 +1163,8 @@ def cases(tier, seed):
     for fam in FAMS3 + FAMS2:
         for rep in range(reps if tier == "thorough" else 2):
             out.append(("patch:%s:%d" % (fam, rep), case_patch(fam, rep + (FAMS3 + FAMS2).index(fam))))
-    for order, dim in ((2, 2), (3, 2), (4, 2), (2, 3), (3, 3)):
+    # (orders 5 and 6: third audit, the arbitrary-order region was never driven beyond order 4)
+    for order, dim in ((2, 2), (3, 2), (4, 2), (2, 3), (3, 3), (5, 2)) + (((6, 2),) if tier == "thorough" else ()):
         for rep in range(reps):
             out.append(("patch-lagrange:%d:%d:%d" % (order, dim, rep), case_patch_lagrange(order, dim, rep)))
     k = 0
@@ -541,6 +1182,18 @@ def cases(tier, seed):
         out.append(("curve-multi:%d" % rep, case_curve_multi(rep)))
     for rep in range(6 if tier == "quick" else 24):
         out.append(("curve-other:%d" % rep, case_curve_other(rep)))
+    # third audit: inputs where the history, the dictionary of the step, the list of items, the tracked points, the unit system, the
+    # formulation matter (all scheduled by index)
+    for rep in range(3 if tier == "quick" else 6):
+        out.append(("view-history:%d" % rep, case_view_history(rep)))
+    for rep in range(4 if tier == "quick" else 24):
+        out.append(("curve-steps:%d" % rep, case_curve_steps(rep)))
+    for rep in range(6 if tier == "quick" else 36):
+        out.append(("curve-items:%d" % rep, case_curve_items(rep)))
+    for rep in range(8 if tier == "quick" else 40):
+        out.append(("curve-forms:%d" % rep, case_curve_forms(rep)))
+    for rep in range(4 if tier == "quick" else 24):
+        out.append(("patch-job:%d" % rep, case_patch_job(rep)))
     return out
 
 
@@ -549,14 +1202,31 @@ SPEC = {
                        "curve:biaxial:3d", "curve:biaxial:planestrain", "curve:uniaxial:x", "curve:uniaxial:field", "view:Uniaxial", "view:Planar Shear",
                        "view:Biaxial", "patch:lagrange[order<=2]", "patch:lagrange[order>=3,dim=2]", "curve:multi:two-steps", "curve:multi:no-ramp", "curve:multi:mixed", "view:statevars:Uniaxial", "view:statevars:Planar Shear", "view:statevars:Biaxial", "view:Uniaxial (Incompressible)", "view:Planar Shear (Incompressible)", "view:Biaxial (Incompressible)"]
     + ["curve:material:" + n for n in REF] + ["curve:family:" + f for f in CURVE_FAMS]
-    + ["curve:uniaxial:uniform-C", "curve:biaxial:uniform-C", "curve:body-away-from-origin", "curve:record", "patch:disturbed-start", "curve:biaxial:no-symmetry", "curve:pressure-controlled", "curve:tracked-other-face"],
+    + ["curve:uniaxial:uniform-C", "curve:biaxial:uniform-C", "curve:body-away-from-origin", "curve:record", "patch:disturbed-start", "curve:biaxial:no-symmetry", "curve:pressure-controlled", "curve:tracked-other-face"]
+    # third audit
+    + ["curve:uniaxial:x-vector", "curve:uniaxial:y-vector", "curve:biaxial:x-vector", "curve:biaxial:y-vector", "curve:softened-branch"]
+    + ["view:history:" + v + i for v in ("Uniaxial", "Planar Shear", "Biaxial") for i in ("", " (Incompressible)")] + ["view:history:statevars=", "view:history:second-evaluate"]
+    + ["curve:steps:two-dictionaries", "curve:steps:x-vector", "curve:steps:second-face", "curve:steps:callback-force", "curve:steps:user-callback"]
+    + ["curve:items:two-items", "curve:items:lateral-face", "curve:items:pseudo-elastic-cycles"]
+    + ["curve:forms:condensed:mini", "curve:forms:mixed", "curve:forms:mixed:planestrain", "curve:forms:mixed:3d", "curve:forms:solid:one-cell", "curve:forms:mixed:one-cell",
+       "curve:forms:condensed:one-cell", "curve:forms:nearly-incompressible", "curve:forms:dual-fields"]
+    + ["patch-job:solid", "patch-job:condensed", "patch-job:mixed", "patch-job:reaction-vector"],
     "rule": ("displacement patch tests (random affine map on the whole boundary) on 12 element families with interior distortion, 3D and plane "
              "strain; uniaxial and biaxial load cases with CharacteristicCurve jobs (1, 3, 7 substeps, cyclic ramps, with/without symmetry "
              "planes, SolidBody and condensed nearly-incompressible body) on 10 families x 5 materials with oracle-side closed forms; material-"
-             "level uniaxial/planar/biaxial curves incl. the incompressible view; a configuration is distinct by (load case, family, material, "
-             "formulation, substeps)"),
+             "level uniaxial/planar/biaxial curves incl. the incompressible view; all components of job.x / job.y; the pseudo-elastic law on "
+             "unloading / reloading paths (jobs and views with statevars=, second evaluate) against an own history loop; two steps with "
+             "different boundary dictionaries, items=[a, b], tracked free faces, user callback with own force sums; length / modulus units "
+             "1e-6 .. 250 / forces 1e-4 .. 1e5; condensed and mixed bodies on MINI / simplex / plane-strain families, one-cell meshes, K/mu up to "
+             "1e4; the patch test ramped as a job with the reaction vector P(F) N A0 of the sheared state; a configuration is distinct by "
+             "(load case, family, material, formulation, substeps, unit)"),
     "assumptions": ["reference stresses: textbook energies in principal stretches (vmon/oracles/hyper.py), lateral stretches by brentq",
-                    "Newton tolerance 1e-10/1e-11; comparison tolerances 1e-7 (forces) and 1e-8 (displacements)"],
+                    "Newton tolerance 1e-10/1e-11; comparison tolerances 1e-7 (forces) and 1e-8 (displacements)",
+                    "pseudo-elastic law: documented eta = 1 - erf((Wmax - W) / (m + beta Wmax)) / r times the stress of the base law, Wmax the running maximum "
+                    "over the committed substeps / list members (own loop); view curves of that law 1e-6 (hybr root solve of the view)",
+                    "unit sweep: lengths 3e-6 .. 250, total reactions 1e-4 .. 1e5 (above 1e-4 Newton's documented eps = 1e-3 still bounds the force error by 1e-9); "
+                    "mixed (u, p, J) bodies are judged in the unit system of the draw only (one residual norm over rows of different units)",
+                    "non-convergence of a job from the undeformed state in stretch increments <= 15 % is a violation, coarser subdivisions stay a skip"],
     "jobs": {"quick": 12, "thorough": 16},
     "timeout": {"quick": 1200, "thorough": 5400},
 }
